@@ -169,11 +169,21 @@ def ob_burrow(op, amax=3, tier="quick", budget_s=150):
     other = {"__add__": "__xor__", "And": "Or", "Or": "And"}.get(op, "__add__" if op != "__add__" else "__xor__")
     for ar in _arities(op, amax):
         for same in itertools.product([True, False], repeat=ar):
-            for variant in ("same-op", "other-op", "false-branch-leaf", "false-branch-if", "operand-is-if"):
+            for variant in ("same-op", "other-op", "false-branch-leaf", "false-branch-if", "operand-is-if", "fewer-operands", "more-operands"):
                 if op in BIN_ONLY and variant == "other-op":
                     continue
                 a = [mk(f"a{i}") for i in range(ar)]
                 b = [a[i] if same[i] else mk(f"b{i}") for i in range(ar)]
+                if variant in ("fewer-operands", "more-operands"):
+                    # the two branches are the same variadic operation with DIFFERENT operand counts (a + b + d  vs  a + e)
+                    if len(_arities(op, amax)) < 2 or op == "Concat":
+                        continue
+                    if variant == "fewer-operands":
+                        if ar < 3:
+                            continue
+                        b = b[:-1]
+                    else:
+                        b = b + [mk("extra")]
                 if variant == "operand-is-if":
                     a[0] = claripy.If(claripy.BoolS("d", explicit_name=True), a[0], mk("z"))
                     if same[0]:
